@@ -23,7 +23,7 @@ RULE = (
 ASSUMPTIONS = ["claripy's Z3 translation of constraints is trusted here (it is the subject of C01)"]
 
 CLASSES = ["Solver", "SolverCacheless", "SolverComposite", "SolverReplacement", "SolverHybrid", "SolverVSA", "SolverConcrete", "SolverStrings"]
-EXACT = {"Solver", "SolverCacheless", "SolverComposite", "SolverStrings"}
+EXACT = {"Solver", "SolverCacheless", "SolverComposite", "SolverStrings", "SolverReplacement", "SolverHybrid"}
 
 
 def floors(tier):
@@ -32,7 +32,7 @@ def floors(tier):
 
 def plan(tier, seed):
     q = tier == "quick"
-    return [{"kind": "ops", "cls": cls, "stream": i, "n": 50 if q else 500, "env": {"REUSE_Z3_SOLVER": str(i % 2)}} for cls in CLASSES for i in range(2 if q else 6)]
+    return [{"kind": "ops", "cls": cls, "stream": i, "n": 70 if q else 600, "env": {"REUSE_Z3_SOLVER": str(i % 2)}} for cls in CLASSES for i in range(2 if q else 6)]
 
 
 def conj(cons):
